@@ -19,7 +19,7 @@ static std::string oracle(const Case& c) {
     ev.eval(); ev.count("ops-executed", seq.size()); bool nt = m.saw_alloc_fail;
     for (auto& p : m.cls) { if (p.first.rfind("cell:", 0) == 0) { ev.count(p.first, p.second); if (p.first.find("UNSUPPORTED") != std::string::npos || p.first.find("FORMAT") != std::string::npos || p.first.find("CHECKSUM") != std::string::npos) nt = true; } else if (p.first.find("MEMORY") != std::string::npos) ev.count(p.first, p.second); }
     if (m.saw_alloc_fail) ev.count("seq:allocation-failure-observed");
-    if (nt) { ev.nt(c); ev.sample(c.get("gen", "seq"), c); } else ev.count("trivial");
+    if (nt) { ev.nt(c); { Case sc = c; sc.set("described", ops::describe(seq).substr(0, 600)); ev.sample(c.get("gen", "seq"), sc); } } else ev.count("trivial");
     return "";
 }
 
